@@ -63,6 +63,7 @@ def generate(seed, tier, index):
         'sched_seed': rng.randrange(1 << 30),
         'prog': ['prog'] + [rng.choice(OPTIONISH) for _ in range(rng.randint(0, 5))],
         'run_spelling': rng.choice(['-r', '-r', '--run', 'cluster', 'cluster']),
+        'libwayland': rng.choice([None, None, None, '/tmp']),       # an option of a neighbouring feature: the rest must not notice
         'environ': dict(common.BASE_ENV, **rng.choice([{}, {'WAYLAND_DEBUG': '0'}, {'WAYLAND_DEBUG': 'client'},
                                                        {'LD_LIBRARY_PATH': '/opt/lib'}, {'FOO': 'bar baz', 'EMPTY': ''}])),
     }
